@@ -147,8 +147,11 @@ def run(ctx) -> None:
                     LE = BF.var(a)
                 elif op in (">", ">="):
                     LE = ~BF.var(a)
-                if op in ("<",):
-                    ctx.observe("_update_cfg_from_vcs compares with '<': an equal tag replaces the config text (same version, allowed)")
+                strict = op in ("<", ">=")          # tag < cfg  /  not (tag >= cfg): a tag that is PEP 440-equal to the config value is adopted
+                ctx.check("R1", not strict, "_update_cfg_from_vcs: the config value is kept when the newest tag is not greater (tag <= config)",
+                          "cli._update_cfg_from_vcs: a tag that is only equal to the config value replaces it",
+                          f"`{a}`: on the default scope the current version is the greater of config value and newest tag; with a tag that is PEP 440-equal but spelled differently "
+                          f"(`1.04.0` vs `1.4.0`) `show` and the `Old Version` line report the tag's spelling instead of the configured one", loc=uc.loc(), witness={"config": "1.4.0", "tag": "1.04.0"})
         elif any("version" in x for x in sides) and op in ("<", "<=", ">", ">="):
             ctx.bad("R1", "cli._update_cfg_from_vcs: default-scope comparison is not under version.parse_version",
                     f"`{a}` orders version texts as strings ('1.10.0' < '1.9.0'): the newest tag is ignored / the version runs backwards", loc=uc.loc(),
